@@ -9,7 +9,7 @@
 //!  * `bytes3`   every byte string of length <= 3, alone and after a valid MODULE line;
 //!  * `fields`   one line of every record kind, 0 / 1 / 2 fields replaced by boundary tokens,
 //!               4 line terminators;
-//!  * `seqs`     every sequence of <= 3 (thorough: 5) lines over 37 record shapes;
+//!  * `seqs`     every sequence of <= 3 (thorough: 5) lines over 39 record shapes;
 //!  * `corrupt`  a valid file with every record kind: every byte replaced by every value, every
 //!               byte deleted;
 //!  * `longline` real-constant long lines: lengths around every buffer threshold
@@ -347,6 +347,10 @@ const KINDS: &[&[u8]] = &[
     // (a one-byte overlap with different contents: the range-table repair must drop one, not fail)
     b"FUNC 14 5 0 g\n", b"STACK CFI INIT 14 5 .cfa: $esp 8 + .ra: .cfa 4 - ^\n", b"STACK WIN 4 14 5 0 0 0 0 0 0 1 $eip 8 + ^ =\n",
     // records with the SAME start as `.. 10 5` and another size (shorter): same start, different end
+    // an inconsistent record (type 4 without a program) whose last argument is long and made of two-byte characters,
+    // at both parities (whatever a diagnostic does with it, it is text, not bytes)
+    "STACK WIN 4 20 5 0 0 0 0 0 0 0 \u{e9}\u{e9}\u{e9}\u{e9}\u{e9}\u{e9}\u{e9}\u{e9}\u{e9}\u{e9}\u{e9}\u{e9}\u{e9}\u{e9}\u{e9}\u{e9}\u{e9}\u{e9}\u{e9}\u{e9}\u{e9}\u{e9}\u{e9}\u{e9}\u{e9}\u{e9}\u{e9}\u{e9}\u{e9}\u{e9}\u{e9}\u{e9}\u{e9}\u{e9}\u{e9}\u{e9}\u{e9}\u{e9}\u{e9}\u{e9}\n".as_bytes(),
+    "STACK WIN 4 20 5 0 0 0 0 0 0 0 a\u{e9}\u{e9}\u{e9}\u{e9}\u{e9}\u{e9}\u{e9}\u{e9}\u{e9}\u{e9}\u{e9}\u{e9}\u{e9}\u{e9}\u{e9}\u{e9}\u{e9}\u{e9}\u{e9}\u{e9}\u{e9}\u{e9}\u{e9}\u{e9}\u{e9}\u{e9}\u{e9}\u{e9}\u{e9}\u{e9}\u{e9}\u{e9}\u{e9}\u{e9}\u{e9}\u{e9}\u{e9}\u{e9}\u{e9}\u{e9}\n".as_bytes(),
     b"FUNC 10 3 0 h\n", b"STACK CFI INIT 10 3 .cfa: $esp 8 + .ra: .cfa 4 - ^\n", b"STACK WIN 4 10 3 0 0 0 0 0 0 1 $eip 8 + ^ =\n", b"STACK WIN 0 10 3 0 0 0 0 0 0 0 1\n",
 ];
 fn seqs_space(depth: u32) -> Space {
@@ -602,7 +606,7 @@ fn main() {
         let mut def = CheckDef::new(
             "C09",
             "fault_enumeration",
-            "every case = one byte string parsed by the real SymbolFile::parse through a counting reader/callback (window oracle at every read) and by from_bytes, under panic guard / wall budget / allocation cap. Spaces: all strings of length <= 3 alone and after MODULE; 15 record templates x {0,1,2} fields replaced from a 16-token boundary menu x 4 terminators; all sequences of <= depth lines over 37 record shapes; all sequences of <= 4 lines over 12 record shapes at the very top of the address space (address + size = 2^64, 2^64 - 1, past it); every single-byte replacement and deletion of a valid 19-line file; real-constant long lines (content lengths around 10/20/40/80/160 KiB and over MAX — listed under long_line_content_lengths — x 6 kinds x 4 prefixes x 5 suffixes x LF/CRLF x 3 (thorough: 6) read chunkings) with the dropped-line equality oracle. distinct_nontrivial = distinct (part, outcome + table shape or error text) keys.",
+            "every case = one byte string parsed by the real SymbolFile::parse through a counting reader/callback (window oracle at every read) and by from_bytes, under panic guard / wall budget / allocation cap. Spaces: all strings of length <= 3 alone and after MODULE; 15 record templates x {0,1,2} fields replaced from a 16-token boundary menu x 4 terminators; all sequences of <= depth lines over 39 record shapes; all sequences of <= 4 lines over 12 record shapes at the very top of the address space (address + size = 2^64, 2^64 - 1, past it); every single-byte replacement and deletion of a valid 19-line file; real-constant long lines (content lengths around 10/20/40/80/160 KiB and over MAX — listed under long_line_content_lengths — x 6 kinds x 4 prefixes x 5 suffixes x LF/CRLF x 3 (thorough: 6) read chunkings) with the dropped-line equality oracle. distinct_nontrivial = distinct (part, outcome + table shape or error text) keys.",
         );
         def.assumptions = vec![
             "C09 only requires 'returns Ok or Err' for input without a final newline: outcomes are not compared across read chunkings (that is C10 / F8)".into(),
